@@ -85,6 +85,40 @@ CHECKS["C06"] = {
     "level_text": "total derivatives of the reference energy w.r.t. every duration, waypoint and boundary component are compared with the library on every lattice case, with non-zero boundary derivatives included through the basis",
 }
 
+CHECKS["C04"] = {
+    "engine": "E1 lattice explorer",
+    "jobs": lambda tier: per_dim("C04.cpp", "C04", tier),
+    "rule": "(a) injected coefficients: unit = (order, 1 or 3 segments, pair of coefficient rows (j,k), one of 9 durations) -> getEnergy vs exact product integration; by bilinearity in the coefficients and polynomial identity in T (degree <= 7 < 9 points) this fixes every weight and power of the closed form; (b) public route: unit = (order, N, duration word, scale) -> getEnergy vs exact integral of the published polynomials for the data basis + generic data, non-negativity, sum over coordinates (vs D one-dimensional splines); non-trivial = the unit involves at least one coefficient row entering the energy",
+    "bounds": {"quick": "3 orders x DIM 1..4; injected: all row pairs x 9 T x {1,3} segments; public: (N 1..4 all 3^N words, N 5,6 all 2^N) x 3 scales x full data basis",
+               "thorough": "3 orders x DIM 1..10; injected as quick; public: (N 1..7 all 3^N words, N 8..10 all 2^N) x 5 scales 2^-6..2^6 x full data basis"},
+    "thresholds": {"relative to sum of |terms| of the exact integral": 1e-12},
+    "assumptions": ASSUME_COMMON + ["injected-coefficient route writes the private members coeffs_/time_segments_/time_powers_ through -fno-access-control"],
+    "technique": TECH_E1 + "; oracle = exact product integration of the published polynomials in long double; completeness by bilinearity + polynomial identity",
+    "level_text": "closed-form energy compared with exact integration on a complete set of coefficient-row pairs at more durations than the polynomial degree (so the formula itself is pinned), and on every solver-produced coefficient set of the lattice",
+}
+
+CHECKS["C13"] = {
+    "engine": "E1 lattice explorer",
+    "jobs": lambda tier: per_dim("C13.cpp", "C13", tier, quick=(1, 2, 3, 4, 5), thorough=tuple(range(1, 11))),
+    "rule": "unit = (order, N, duration word, scale); every unit builds the D-dimensional spline (generic data with a different vector per coordinate, and data confined to one coordinate) and the D one-dimensional splines of its coordinates and compares coefficients, evaluations, propagated point/boundary gradients and energy gradients coordinate by coordinate, energy / duration gradients as sums over coordinates, and repeats under every cyclic shift and one transposition of the coordinates; non-trivial = D >= 2",
+    "bounds": {"quick": "3 orders x D 1..5 x (N 1..5 all 3^N words, N 6 all 2^N)", "thorough": "3 orders x D 1..10 x (N 1..7 all 3^N words, N 8..10 all 2^N) x 3 scales"},
+    "thresholds": {"coefficients (C02 metric)": [3e-9, 1e-8, 1e-6], "gradients": "1e3 x that (same algorithm on both sides; measured bit-identical)", "sums (relative to the energy itself)": 1e-9},
+    "assumptions": ASSUME_COMMON,
+    "technique": TECH_E1 + "; differential oracle = the same class instantiated for DIM=1 per coordinate, and coordinate permutations",
+    "level_text": "every lattice case compares the D-dimensional object with its D one-dimensional counterparts, covering the column-major 1-D layout and both septic gradient branches (D<=3, D>3)",
+}
+
+CHECKS["C14"] = {
+    "engine": "E1 lattice explorer",
+    "jobs": lambda tier: per_dim("C14.cpp", "C14", tier, quick=(1, 2, 3, 4), thorough=(1, 2, 3, 4, 5, 10)),
+    "rule": "unit = (order, N, duration word, scale); every unit applies, to the full data basis + generic dyadic data: two start-time shifts (coefficients/energy/gradients bitwise unchanged, knots shifted), a dyadic translation (row c0 translated, rest unchanged), data x 2^k (exact), durations x 2^k with boundary derivatives rescaled (exact, incl. gradient scaling laws), and time reversal (curve on a probe grid for all derivative orders, energy, mirrored gradients); non-trivial = N >= 2 or non-palindromic durations",
+    "bounds": {"quick": "3 orders x D 1..4 x (N 1..4 all 3^N words, N 5,6 all 2^N)", "thorough": "3 orders x D {1,2,3,4,5,10} x (N 1..7 all 3^N words, N 8..10 all 2^N) x 3 scales"},
+    "thresholds": {"power-of-two relations and start shift": "bitwise", "translation / reversal (C02 metric)": [3e-9, 1e-8, 1e-6]},
+    "assumptions": ASSUME_COMMON,
+    "technique": TECH_E1 + "; metamorphic oracles (no reference model): exact power-of-two scaling laws, shift invariance, time-reversal symmetry",
+    "level_text": "every lattice case is transformed five ways and the transformed object compared with the transformed original; time reversal exposes any asymmetry between first-block and last-block special cases",
+}
+
 NOT_APPLICABLE = {}
 
 ENGINES = [
